@@ -41,6 +41,14 @@ func init() {
 var gtBlankLt = regexp.MustCompile(">[\\n\\t\\r ]+<")
 
 func c04Shape(doc *XElem) string {
+	// a comment, instruction or directive ahead of the element's text (no child element precedes the text)
+	for _, e := range doc.elems() {
+		for i, it := range e.Items {
+			if it.Kind == 't' && i > 0 {
+				return "comment-pi-or-directive-before-text"
+			}
+		}
+	}
 	// a comment, PI, directive or CDATA section whose text contains '>' blanks '<': the byte-level
 	// formatter of NewMapFormattedXmlSeq cannot tell it from inter-element white space
 	for _, e := range doc.elems() {
@@ -273,7 +281,12 @@ func c04InDomain(doc *XElem) bool {
 		for i, it := range e.Items {
 			cnt[it.Kind]++
 			if it.Kind == 't' && i != 0 {
-				return false
+				// text stands alone or before the child elements: comments, instructions and directives may precede it
+				for _, prev := range e.Items[:i] {
+					if prev.Kind == 'e' {
+						return false
+					}
+				}
 			}
 		}
 		if cnt['t'] > 1 || cnt['c'] > 1 || cnt['p'] > 1 || cnt['d'] > 1 {
@@ -348,8 +361,8 @@ func c04Run(c *Ctx) {
 							continue
 						}
 						// ordered pairs: attribute order matters
-						if ds[i].Kind != 'a' && j < i {
-							continue
+						if ds[i].Kind != 'a' && j < i && !(ds[j].Kind == 't' && ds[i].Kind != 't' && ds[i].Kind != 'n' && ds[i].El == ds[j].El && ds[i].Pos == 0) {
+							continue // (besides attribute pairs, the order matters for a comment / PI / directive put ahead of the text)
 						}
 						if doc, ok := applyDecos(base, []Deco{ds[i], ds[j]}); ok && c04InDomain(doc) {
 							runDoc(doc)
